@@ -111,6 +111,7 @@ type Sim struct {
 	Leaked   int // tasks left parked when the run was abandoned
 	mapHash  uint64
 	mapOrder MapOrder
+	endSync  byte // race-detector carrier: every task's exit happens before Run returns
 	MapSites int64
 	Notes    []string
 }
@@ -263,6 +264,7 @@ func (s *Sim) Run(name string, main func()) {
 	s.cur = t
 	t.bat.unpark()
 	s.ctl.park()
+	raceAcquire(&s.endSync)
 	// Count what is left behind.
 	for _, t := range s.tasks {
 		if !t.done {
@@ -315,6 +317,7 @@ func (s *Sim) taskExit(t *Task, r interface{}, abnormal bool) {
 	if s.Aborted != "" && s.cur != t {
 		return
 	}
+	raceReleaseMerge(&s.endSync)
 	t.exiting = true
 	for i := len(t.onExit) - 1; i >= 0; i-- {
 		t.onExit[i]()
@@ -475,6 +478,7 @@ func (s *Sim) abort(reason string) {
 		s.Emit(reason, s.blockedSet(), 0, "")
 	}
 	me := s.cur
+	raceReleaseMerge(&s.endSync)
 	s.cur = nil
 	s.ctl.unpark()
 	if me != nil {
